@@ -1302,3 +1302,24 @@ add("bF16b", ["C05", "C09"], (W, "                if self.closed:\n", "         
     note="without a window nobody ever waits for a slot")
 add("mF16d", ["C05", "C09"], (W, "                if self.closed:\n", "                if self.closed and job.is_critical():\n"),
     rules=["R05.11", "R09.8"], note="the gate holds back critical jobs only")
+
+# ------------------------------------------------------------------ round 6
+add("mR6a", ["C19"], (P, "        self.jobs.remove(job)\n        return self\n", "        self.jobs.remove(job)\n        self.sanitize()\n        return self\n"),
+    rules=["R19.12"], note="seed C19-R6C")
+add("mR6b", ["C16", "C19"], (J, "        self.required = BestSet()\n        self.requires(required)\n",
+                             "        if isinstance(required, BestSet):\n            self.required = required\n        else:\n            self.required = BestSet()\n            self.requires(required)\n"),
+    rules=["R16.7", "R19.8"], note="seed C16-R6A")
+add("mR6c", ["C03", "C13"], [(P, "                 shutdown_timeout=1,", "                 shutdown_timeout=None,"),
+                             (S, "                 shutdown_timeout=1,", "                 shutdown_timeout=None,")],
+    rules=["R03.7", "R13.11"], note="seed C03-R6C")
+add("mR6d", ["C15", "C20"], (J, "        self._sched_id = str(id_format.format(start))\n",
+                             "        if self._sched_id is None:\n            self._sched_id = str(id_format.format(start))\n"),
+    rules=["R15.5n", "R20.3"], note="seed C15-R6B")
+add("mR6e", ["C17", "C18", "C12"], (P, "        for job in self.jobs:\n            job._s_successors = BestSet()               # pylint: disable=W0212\n",
+                                    "        signature = (len(self.jobs), sum(len(job.required) for job in self.jobs))\n        if signature == getattr(self, '_backlinks_signature', None):\n            return\n        self._backlinks_signature = signature\n        for job in self.jobs:\n            job._s_successors = BestSet()               # pylint: disable=W0212\n"),
+    rules=["R17.2", "R18.q2", "R12.3"], note="seed C17-R6A")
+add("mR6f", ["C07"], (W, "        self.jobs_window = jobs_window\n        self.queue = asyncio.Queue(maxsize=jobs_window)\n",
+                      "        self.jobs_window = jobs_window\n        if len(jobs) <= jobs_window:\n            jobs_window = 0\n        self.queue = asyncio.Queue(maxsize=jobs_window)\n"),
+    rules=["R07.2"], note="seed C07-R6A")
+add("bR6f", ["C07", "C12"], (W, "        if jobs_window is None:\n            jobs_window = 0\n", "        if jobs_window is None or jobs_window <= 0:\n            jobs_window = 0\n"),
+    expect='silent')
